@@ -39,88 +39,132 @@ MIN_OBLIGATIONS = 25
 M = "liquid.extra.tags.extends_tag"
 
 
-def check_extends_cycle(repo: Repo, res: Result, rule: str = "C18-CYCLE") -> None:
-    """The walk up an ``extends`` chain terminates and rejects cycles: the parent name is tested
-    against a fresh ``seen`` set (raise), recorded and loaded — the same expression all three
-    times — and the walk is the plain ``while next_template`` loop.  Shared with C09 (termination
-    of the two chain-walk loops)."""
-    # ---- C18-CYCLE ------------------------------------------------------------------
-    for fq, gt in ((f"{M}._build_block_stacks", "get_template"), (f"{M}._build_block_stacks_async", "get_template_async")):
-        f0 = repo.func(fq)
-        # private helpers shared by the sync/async pair are inlined (sa/normalize.py); the block
-        # collection helpers are not part of this rule and stay calls
-        from ..normalize import NFunc, normalize
+def _seen_summary(fn_node: ast.AST, seen: str):
+    """Does ``fn_node`` (a helper taking the ``seen`` set) test a name against it (raise
+    TemplateInheritanceError when present) and record it, on every path that returns a value other
+    than None?  Returns (returned variable, key attribute) — e.g. ("extends_node", "name") for
+    ``if e.name in seen: raise ...; seen.add(e.name); return e`` — or None."""
 
-        f = NFunc(f0, normalize(repo, f0, keep=("_stack_blocks", "_store_blocks", "_find_inheritance_nodes", "_find_inheritance_nodes_async"), aliases=False))
-        inner = next((n for n in f.node.body if isinstance(n, (ast.FunctionDef, ast.AsyncFunctionDef)) and n.name == "_stack_template_blocks"), None)
-        res.ob(fq, 3)
-        if inner is None:
-            res.add(rule, fq, "shape", f"{fq}: helper _stack_template_blocks not found", f.file, f.line)
+    def gen(st):
+        return {"recorded:" + text(c.args[0]) for c in calls(st) if callee_name(c) == "add" and is_name(call_recv(c), seen) and c.args}
+
+    def gen_cond(test, truth):
+        if isinstance(test, ast.Compare) and len(test.ops) == 1 and isinstance(test.ops[0], ast.In) and is_name(test.comparators[0], seen) and not truth:
+            return {"not-seen:" + text(test.left)}
+        return set()
+
+    exits = MustFlow(gen=gen, gen_cond=gen_cond).run(fn_node)
+    out = None
+    for kind, node, st in exits:
+        if kind != "return" or node.value is None or (isinstance(node.value, ast.Constant) and node.value.value is None):
             continue
-        state = {"loaded_checked": None}
+        v = node.value
+        if not isinstance(v, ast.Name):
+            return None
+        keys = {f.split(":", 1)[1] for f in st if f.startswith("recorded:")} & {f.split(":", 1)[1] for f in st if f.startswith("not-seen:")}
+        attrs = {k.split(".", 1)[1] for k in keys if k.startswith(v.id + ".") and k.count(".") == 1}
+        if not attrs:
+            return None
+        cand = (v.id, sorted(attrs)[0])
+        if out is not None and out[1] != cand[1]:
+            return None
+        out = cand
+    if out is None:
+        return None
+    # a repeated name raises TemplateInheritanceError
+    ok_raise = any(isinstance(n, ast.If) and isinstance(n.test, ast.Compare) and isinstance(n.test.ops[0], ast.In) and is_name(n.test.comparators[0], seen) and len(n.body) == 1 and isinstance(n.body[0], ast.Raise) and "TemplateInheritanceError" in text(n.body[0]) for n in ast.walk(fn_node))
+    return out if ok_raise else None
+
+
+def check_extends_cycle(repo: Repo, res: Result, rule: str = "C18-CYCLE") -> None:
+    """The walk up an ``extends`` chain terminates and rejects cycles: before a parent is loaded
+    its name is tested against a fresh ``seen`` set (raise TemplateInheritanceError) and recorded —
+    the same expression all three times — and the walk is one ``while x:`` loop that rebinds x.
+    The test + record may sit next to the load (in the function or its closure) or in a helper
+    that hands back the node to load (summarised by ``_seen_summary``, not inlined).  Shared with
+    C09 (termination of the two chain-walk loops)."""
+    mod = repo.module(M)
+    for fq, gt in ((f"{M}._build_block_stacks", "get_template"), (f"{M}._build_block_stacks_async", "get_template_async")):
+        f = repo.func(fq)
+        res.ob(fq, 3)
+
+        def has_load(n):
+            return any(isinstance(c, ast.Call) and callee_name(c) == gt for c in ast.walk(n))
+
+        inner = next((n for n in f.node.body if isinstance(n, (ast.FunctionDef, ast.AsyncFunctionDef)) and has_load(n)), None)
+        closure = inner is not None
+        if inner is None:
+            inner = f.node
+        if not has_load(inner):
+            res.add(rule, fq, "shape", f"{fq}: no {gt}(...) call found: how is the parent template loaded?", f.file, f.line)
+            continue
+        # helpers of the module that establish "tested and recorded" for the node they return
+        helpers = {}
+        for g in mod.functions.values():
+            ps = g.params()
+            if "seen" in ps and g.node is not f.node:
+                sm = _seen_summary(g.node, "seen")
+                if sm is not None:
+                    helpers[g.name] = sm
+        state = {"ok": None, "keys": []}
 
         def gen(st):
             out = set()
             for c in calls(st):
-                if callee_name(c) == "add" and is_name(call_recv(c), "seen"):
-                    out.add("recorded")
+                if callee_name(c) == "add" and is_name(call_recv(c), "seen") and c.args:
+                    out.add("recorded:" + text(c.args[0]))
+            if isinstance(st, ast.Assign) and len(st.targets) == 1 and isinstance(st.targets[0], ast.Name):
+                v = unwrap_await(st.value)
+                if isinstance(v, ast.Call) and callee_name(v) in helpers and any(is_name(a, "seen") for a in list(v.args) + [k.value for k in v.keywords]):
+                    out.add(f"est:{st.targets[0].id}.{helpers[callee_name(v)][1]}")
             return out
 
         def gen_cond(test, truth):
-            if isinstance(test, ast.Compare) and isinstance(test.ops[0], ast.In) and is_name(test.comparators[0], "seen") and not truth:
-                return {"not-seen"}
+            if isinstance(test, ast.Compare) and len(test.ops) == 1 and isinstance(test.ops[0], ast.In) and is_name(test.comparators[0], "seen") and not truth:
+                return {"not-seen:" + text(test.left)}
             return set()
+
+        def kill(st, facts):
+            dead = set()
+            if not hasattr(st, "body") and any(isinstance(c, ast.Call) and callee_name(c) == gt for c in ast.walk(st)):
+                # a load consumes the check: the next load needs its own test + record
+                dead |= {x for x in facts if x.startswith(("not-seen:", "recorded:"))}
+            for n in ast.walk(st) if not hasattr(st, "body") else []:
+                if isinstance(n, ast.Name) and isinstance(n.ctx, (ast.Store, ast.Del)):
+                    dead |= {x for x in facts if x.split(":", 1)[1].split(".")[0] == n.id}
+            return dead - set(gen(st))
 
         def visit(node, st):
             for c in node_calls(node):
-                if callee_name(c) == gt:
-                    state["loaded_checked"] = {"not-seen", "recorded"} <= st
+                if callee_name(c) == gt and c.args:
+                    key = text(c.args[0])
+                    ok_here = f"est:{key}" in st or (f"not-seen:{key}" in st and f"recorded:{key}" in st)
+                    state["keys"].append((key, sorted(st)))
+                    state["ok"] = ok_here if state["ok"] is None else (state["ok"] and ok_here)
 
-        MustFlow(gen=gen, gen_cond=gen_cond, visit=visit).run(inner)
-        if state["loaded_checked"] is not True:
-            res.add(rule, fq, "seen-before-load", f"{fq}: the parent is loaded without first testing `name in seen` (raise) and recording it — a circular extends chain recurses until the stack overflows", f.file, inner.lineno)
-        seen_if = next((n for n in ast.walk(inner) if isinstance(n, ast.If) and isinstance(n.test, ast.Compare) and is_name(n.test.comparators[0], "seen")), None)
-        if seen_if is None or not (len(seen_if.body) == 1 and isinstance(seen_if.body[0], ast.Raise) and "TemplateInheritanceError" in text(seen_if.body[0])):
-            res.add(rule, fq, "raise", f"{fq}: a repeated parent name must raise TemplateInheritanceError", f.file, inner.lineno)
-        # the key tested, recorded and loaded is the same expression
-        # names connected by plain copies `a = b` denote the same value (an inlined helper hands its
-        # result over through such a copy); each name may have only one non-constant source
-        src: dict[str, set] = {}
-        for st_ in ast.walk(inner):
-            if isinstance(st_, ast.Assign) and len(st_.targets) == 1 and isinstance(st_.targets[0], ast.Name) and isinstance(st_.value, ast.Name):
-                src.setdefault(st_.targets[0].id, set()).add(st_.value.id)
-
-        def rep(name: str, depth=0) -> str:
-            s_ = src.get(name)
-            if s_ and len(s_) == 1 and depth < 5:
-                return rep(next(iter(s_)), depth + 1)
-            return name
-
-        def ktext(e) -> str:
-            import copy as _copy
-
-            e = _copy.deepcopy(e)
-            for n_ in ast.walk(e):
-                if isinstance(n_, ast.Name):
-                    n_.id = rep(n_.id)
-            return text(e)
-
-        keyt = ktext(seen_if.test.left) if seen_if is not None else None
-        adds = [ktext(c.args[0]) for c in calls(inner) if callee_name(c) == "add" and is_name(call_recv(c), "seen")]
-        loads = [ktext(c.args[0]) for c in calls(inner) if callee_name(c) == gt and c.args]
-        if not adds or any(a != keyt for a in adds) or any(l != keyt for l in loads):
-            res.add(rule, fq, f"key:{keyt}:{adds}:{loads}", f"{fq}: the name tested against `seen`, recorded in it and loaded must be the same expression", f.file, inner.lineno)
-        # the walk: while next_template: next_template = _stack_template_blocks(next_template)
-        loops = [n for n in f.node.body if isinstance(n, ast.While)]
-        ok = len(loops) == 1 and is_name(loops[0].test, "next_template") and any(
-            isinstance(s, ast.Assign) and is_name(s.targets[0], "next_template") and isinstance(unwrap_await(s.value), ast.Call) and callee_name(unwrap_await(s.value)) == "_stack_template_blocks" and is_name(unwrap_await(s.value).args[0], "next_template")
-            for s in loops[0].body
-        )
+        MustFlow(gen=gen, gen_cond=gen_cond, visit=visit, kill=kill).run(inner)
+        if state["ok"] is not True:
+            res.add(rule, fq, "seen-before-load", f"{fq}: the parent is loaded ({[k for k, _ in state['keys']]}) without that same name having been tested against `seen` (raise) and recorded since the previous load — a circular extends chain is walked for ever (or recurses until the stack overflows)", f.file, inner.lineno)
+        # where the test is written out, it raises TemplateInheritanceError
+        for n in ast.walk(inner):
+            if isinstance(n, ast.If) and isinstance(n.test, ast.Compare) and len(n.test.ops) == 1 and isinstance(n.test.ops[0], ast.In) and is_name(n.test.comparators[0], "seen"):
+                if not (len(n.body) == 1 and isinstance(n.body[0], ast.Raise) and "TemplateInheritanceError" in text(n.body[0])):
+                    res.add(rule, fq, "raise", f"{fq}: a repeated parent name must raise TemplateInheritanceError", f.file, n.lineno)
+        # the walk: one `while <var>:` loop whose body rebinds <var> — from the closure (called with
+        # the template loaded last) or, in the flat form, from the next extends node
+        loops = [n for n in walk_no_nested(f.node) if isinstance(n, ast.While)]
+        ok = False
+        if len(loops) == 1 and isinstance(loops[0].test, ast.Name):
+            var = loops[0].test.id
+            rebinds = [s_ for s_ in ast.walk(loops[0]) if isinstance(s_, ast.Assign) and any(is_name(t, var) for t in s_.targets)]
+            if closure:
+                ok = any(isinstance(unwrap_await(s_.value), ast.Call) and is_name(unwrap_await(s_.value).func, inner.name) and unwrap_await(s_.value).args and is_name(unwrap_await(s_.value).args[0], var) for s_ in rebinds)
+            else:
+                ok = bool(rebinds)
         if not ok:
-            res.add(rule, fq, "walk", f"{fq}: the chain walk must be `while next_template: next_template = _stack_template_blocks(next_template)`", f.file, f.line)
-        if not any(isinstance(s, (ast.Assign, ast.AnnAssign)) and "seen" in text(s).split("=")[0] and "set()" in text(s) for s in f.node.body):
+            res.add(rule, fq, "walk", f"{fq}: the chain walk must be a single `while x:` loop that rebinds x on every step (`next_template = _stack_template_blocks(next_template)`)", f.file, f.line)
+        if not any(isinstance(s_, (ast.Assign, ast.AnnAssign)) and "seen" in text(s_).split("=")[0] and "set()" in text(s_) for s_ in f.node.body):
             res.add(rule, fq, "fresh-seen", f"{fq}: `seen` must be a fresh set per call", f.file, f.line)
-
 
 
 def run(repo: Repo) -> Result:
@@ -213,41 +257,99 @@ def run(repo: Repo) -> Result:
         res.add("C18-CHECKS", bt.qual, "endblock-name", "BlockTag.parse must reject an endblock whose name differs from the block's name", bt.file, bt.line)
 
     # ---- C18-SELECT ---------------------------------------------------------------------
-    st_ = repo.func(f"{M}._store_blocks")
+    # (AST predicates on the normalised functions — private helpers such as a shared
+    #  `_most_derived()` are inlined first — not text fragments; variable names are free)
+    from ..guards import canon as _canon
+    from ..guards import conditions as _conditions
+    from ..guards import exits as _exits
+    from ..normalize import nfunc as _nfunc
+
+    st_ = _nfunc(repo, repo.func(f"{M}._store_blocks"), aliases=False)
     res.ob(st_.qual, 3)
-    s = text(st_.node)
-    if "stack.append(" not in s or "stack[-2].parent = stack[-1]" not in s or "if len(stack) > 1" not in s:
-        res.add("C18-SELECT", st_.qual, "link", "_store_blocks must append the definition and link stack[-2].parent = stack[-1]", st_.file, st_.line)
-    if "stack = block_stacks[block.name]" not in s:
-        res.add("C18-SELECT", st_.qual, "by-name", "_store_blocks must keep one stack per block name", st_.file, st_.line)
-    if "required = False if stack and (not block.required) else block.required" not in s:
-        res.add("C18-REQUIRED", st_.qual, "required-carry", "a non-required parent definition below a more derived one clears `required`; anything else keeps block.required", st_.file, st_.line)
-    if "required=required" not in s or "block=block" not in s or "source_name=source_name" not in s:
-        res.add("C18-SELECT", st_.qual, "item", "_store_blocks must record block, required and source_name on the stack item", st_.file, st_.line)
+    loops_ = [n for n in walk_no_nested(st_.node) if isinstance(n, ast.For)]
+    lp_ = loops_[0] if loops_ else None
+    stack_var = blk_var = None
+    if lp_ is not None and isinstance(lp_.target, ast.Name):
+        blk_var = lp_.target.id
+        for x in ast.walk(lp_):
+            if isinstance(x, ast.Assign) and len(x.targets) == 1 and isinstance(x.targets[0], ast.Name) and isinstance(x.value, ast.Subscript) and text(x.value.slice) == f"{blk_var}.name":
+                stack_var = x.targets[0].id
+    if stack_var is None:
+        res.add("C18-SELECT", st_.qual, "by-name", "_store_blocks must keep one stack per block name (stack = block_stacks[block.name])", st_.file, st_.line)
+    else:
+        appends = [c for c in ast.walk(lp_) if isinstance(c, ast.Call) and callee_name(c) == "append" and is_name(call_recv(c), stack_var)]
+        link = any(isinstance(x, ast.Assign) and text(x.targets[0]) == f"{stack_var}[-2].parent" and text(x.value) == f"{stack_var}[-1]" for x in ast.walk(lp_))
+        guarded = any(isinstance(x, ast.If) and _canon(x.test) == f"len({stack_var}) > 1" and any(isinstance(y, ast.Assign) and text(y.targets[0]) == f"{stack_var}[-2].parent" for y in ast.walk(x)) for x in ast.walk(lp_))
+        if len(appends) != 1 or not link or not guarded:
+            res.add("C18-SELECT", st_.qual, "link", "_store_blocks must append the definition and link stack[-2].parent = stack[-1]", st_.file, st_.line)
+        item = appends[0].args[0] if appends and appends[0].args else None
+        kw = {k.arg: k.value for k in item.keywords} if isinstance(item, ast.Call) else {}
+        from ..astutil import resolve_local, single_assignments
+
+        la = single_assignments(lp_)
+        rq = resolve_local(kw.get("required"), la) if kw.get("required") is not None else None
+        rq_ok = rq is not None and (
+            text(rq) == f"{blk_var}.required"
+            or (isinstance(rq, ast.IfExp) and isinstance(rq.body, ast.Constant) and rq.body.value is False and text(rq.orelse) == f"{blk_var}.required" and _canon(rq.test) in (f"{stack_var} and (not {blk_var}.required)", f"{stack_var} and not {blk_var}.required"))
+        )
+        if not rq_ok:
+            res.add("C18-REQUIRED", st_.qual, "required-carry", "the stack item must carry block.required (a non-required definition below a more derived one may clear it; nothing else)", st_.file, st_.line)
+        if not (kw.get("block") is not None and is_name(kw["block"], blk_var) and kw.get("source_name") is not None and is_name(kw["source_name"], "source_name")):
+            res.add("C18-SELECT", st_.qual, "item", "_store_blocks must record block, required and source_name on the stack item", st_.file, st_.line)
     for m, rd in (("render_to_output", "render"), ("render_to_output_async", "render_async")):
-        f = repo.own_method(f"{M}.BlockNode", m)
+        f = _nfunc(repo, repo.own_method(f"{M}.BlockNode", m), aliases=False)
         res.ob(f.qual, 4)
-        t = text(f.node)
-        if "stack_item = block_stack[0]" not in t:
-            res.add("C18-SELECT", f.qual, "top-of-stack", f"{f.qual} must render block_stack[0], the most derived definition", f.file, f.line)
-        if f"stack_item.block.block.{rd}(ctx, buffer)" not in t:
-            res.add("C18-SELECT", f.qual, "render-selected", f"{f.qual} must render the selected definition's block on the block-scoped copy", f.file, f.line)
-        if "parent=stack_item.parent" not in t:
-            res.add("C18-SELECT", f.qual, "super-parent", f"{f.qual}: the block drop's parent must be the selected item's parent", f.file, f.line)
-        if ".get(self.name)" not in t:
+        # the stack is looked up under the node's own name ...
+        stack_vars = set()
+        for x in ast.walk(f.node):
+            tgt, val = (x.targets[0], x.value) if isinstance(x, ast.Assign) and len(x.targets) == 1 else (x.target, x.value) if isinstance(x, ast.AnnAssign) else (None, None)
+            if isinstance(tgt, ast.Name) and isinstance(val, ast.Call) and callee_name(val) == "get" and val.args and text(val.args[0]) == "self.name":
+                stack_vars.add(tgt.id)
+        if not stack_vars:
             res.add("C18-SELECT", f.qual, "by-name", f"{f.qual} must look its stack up by its own name", f.file, f.line)
-        # REQUIRED: both raises precede any render call
-        raises = [n for n in walk_no_nested(f.node) if isinstance(n, ast.Raise) and "RequiredBlockError" in text(n)]
-        if len(raises) != 2:
-            res.add("C18-REQUIRED", f.qual, f"raises:{len(raises)}", f"{f.qual} must raise RequiredBlockError on the direct path (self.required) and on the stacked path (stack_item.required)", f.file, f.line)
-        conds = [text(n.test) for n in walk_no_nested(f.node) if isinstance(n, ast.If) and any(isinstance(x, ast.Raise) and "RequiredBlockError" in text(x) for x in n.body)]
-        if sorted(conds) != ["self.required", "stack_item.required"]:
-            res.add("C18-REQUIRED", f.qual, f"conds:{conds}", f"{f.qual}: RequiredBlockError must be guarded by self.required / stack_item.required", f.file, f.line)
-        # order: the stacked raise precedes the copy/render
-        lines_raise = [n.lineno for n in raises]
-        render_lines = [c.lineno for c in calls(f.node) if callee_name(c) == rd]
-        if render_lines and lines_raise and not (min(lines_raise) < min(render_lines) and sorted(lines_raise)[-1] < max(render_lines)):
-            res.add("C18-REQUIRED", f.qual, "order", f"{f.qual}: the required checks must come before the block is rendered", f.file, f.line)
+        # ... its first element is the selected definition ...
+        item_vars = set()
+        for x in ast.walk(f.node):
+            if isinstance(x, ast.Assign) and len(x.targets) == 1 and isinstance(x.targets[0], ast.Name) and isinstance(x.value, ast.Subscript) and isinstance(x.value.value, ast.Name) and x.value.value.id in stack_vars:
+                if text(x.value.slice) == "0":
+                    item_vars.add(x.targets[0].id)
+                else:
+                    res.add("C18-SELECT", f.qual, "top-of-stack", f"{f.qual} selects `{text(x.value)}`; block_stack[0] is the most derived definition", f.file, x.lineno)
+        # names that are plain copies of the item (an inlined helper hands it over that way)
+        for _ in range(3):
+            for x in ast.walk(f.node):
+                if isinstance(x, ast.Assign) and len(x.targets) == 1 and isinstance(x.targets[0], ast.Name) and isinstance(x.value, ast.Name) and x.value.id in item_vars:
+                    item_vars.add(x.targets[0].id)
+        if not item_vars:
+            res.add("C18-SELECT", f.qual, "top-of-stack", f"{f.qual} must render block_stack[0], the most derived definition", f.file, f.line)
+        # ... and rendered on a block-scoped copy of the context, with block.super = its parent
+        sel_renders = [c for c in calls(f.node) if callee_name(c) == rd and (ch := attr_chain(call_recv(c))) and len(ch) == 3 and ch[0] in item_vars and ch[1:] == ["block", "block"]]
+        copies = {x.targets[0].id for x in ast.walk(f.node) if isinstance(x, ast.Assign) and len(x.targets) == 1 and isinstance(x.targets[0], ast.Name) and isinstance(x.value, ast.Call) and callee_name(x.value) == "copy" and any(k.arg == "block_scope" and isinstance(k.value, ast.Constant) and k.value.value is True for k in x.value.keywords)}
+        if not sel_renders or not all(c.args and isinstance(c.args[0], ast.Name) and c.args[0].id in copies for c in sel_renders):
+            res.add("C18-SELECT", f.qual, "render-selected", f"{f.qual} must render the selected definition's block on the block-scoped copy", f.file, f.line)
+        drops = [c for c in calls(f.node) if callee_name(c) == "BlockDrop"]
+        if not any((pv := next((k.value for k in c.keywords if k.arg == "parent"), None)) is not None and (ch := attr_chain(pv)) and len(ch) == 2 and ch[0] in item_vars and ch[1] == "parent" for c in drops):
+            res.add("C18-SELECT", f.qual, "super-parent", f"{f.qual}: the block drop's parent must be the selected item's parent", f.file, f.line)
+        # REQUIRED: raised under self.required on the direct path and under <item>.required on the
+        # stacked path; every render of a block happens where the matching flag is false
+        rq_raises = [e for e in _exits(f.node, resolve_locals=False) if e.kind == "raise" and e.raised() == "RequiredBlockError"]
+        conds_sets = [set(e.canon) for e in rq_raises]
+        direct = any("self.required" in cs for cs in conds_sets)
+        stacked = any(any(c == f"{iv}.required" for iv in item_vars) for cs in conds_sets for c in cs)
+        if len(rq_raises) != 2 or not direct or not stacked:
+            res.add("C18-REQUIRED", f.qual, f"raises:{len(rq_raises)}", f"{f.qual} must raise RequiredBlockError on the direct path (self.required) and on the stacked path (stack_item.required)", f.file, f.line)
+        cond_of = {id(st): [_canon(c) for c in cs] for st, cs in _conditions(f.node)}
+        for st, _cs in _conditions(f.node):
+            if hasattr(st, "body"):
+                continue
+            for c in calls(st):
+                if callee_name(c) != rd:
+                    continue
+                cs = cond_of.get(id(st), [])
+                ch = attr_chain(call_recv(c)) or []
+                want = [f"not {iv}.required" for iv in item_vars] if ch and ch[0] in item_vars else ["not self.required"]
+                if not any(w in cs for w in want):
+                    res.add("C18-REQUIRED", f.qual, "order", f"{f.qual}: `{text(c)[:50]}` can run without the required check having passed", f.file, c.lineno)
     bd = repo.own_method(f"{M}.BlockDrop", "__getitem__")
     res.ob(bd.qual, 2)
     t = text(bd.node)
